@@ -96,7 +96,9 @@ static int find_marker(const Bytes& b, int n) {
 }
 static RawPDU payload(int idx, vh::Rng& rng, int salt) {
     static const int L[] = {0, 1, 10, 40, 100, 600, 1400, 0, 26};
-    int n = L[rng.below(9)]; Bytes b(6 + n); marker(idx, &b[0]);
+    int n = L[rng.below(9)];
+    if (rng.below(48) == 0) n = rng.coin() ? 33000 : 60000;      // now and then a frame beyond 32 KiB (still below the 65535 limit)
+    Bytes b(6 + n); marker(idx, &b[0]);
     for (int j = 0; j < n; ++j) b[6 + j] = (uint8_t)(0x20 + ((j + salt * 7) % 64));
     return RawPDU(b.begin(), b.end());
 }
